@@ -883,7 +883,7 @@ pub fn c09(tier: &str) -> ! {
     }
     finish_common(&mut rep);
     sched_assumptions(&mut rep);
-    rep.cov("oracle", json!("every explored execution runs to completion: no deadlock (no runnable task while one is unfinished, or a task re-acquiring a mutex it holds), no livelock (step bound 10^6), no panic of a database call or of the background thread, every descriptor returns; the alphabet contains every public call"));
+    rep.cov("oracle", json!("every explored execution runs to completion: no deadlock (no runnable task while one is unfinished, or a task re-acquiring a mutex it holds), no livelock (step bound 10^7, progress watchdog), no panic of a database call or of the background thread, every descriptor returns; the alphabet contains every public call"));
     rep.finish()
 }
 
@@ -1070,8 +1070,10 @@ pub fn c04(tier: &str) -> ! {
         s
     };
     if t {
-        fams.push(mk("C04/T300/d4xL5", "T300", a1(), 4, 5, true));
-        fams.push(mk("C04/T1/d4xL5", "T1", a1(), 4, 5, true));
+        // (programs of length 5 would be 1.6 * 10^5 per view and node: beyond the step bound of one
+        // execution and of no use - a cursor has no state that four calls cannot reach)
+        fams.push(mk("C04/T300/d4xL4", "T300", a1(), 4, 4, true));
+        fams.push(mk("C04/T1/d4xL4", "T1", a1(), 4, 4, true));
         fams.push(mk("C04/T300/d5xL3", "T300", a1(), 5, 3, true));
         fams.push(mk("C04/T1/d5xL3", "T1", a_c04(), 5, 3, true));
         fams.push(mk("C04/M2/d5xL3", "M2", a_c04(), 5, 3, false).lazy());
